@@ -3,6 +3,7 @@ C14 — Online-key rotation lets clients recover from fast-forwarded versions.
 Model: step 1.9 in `loadRoot` (`onlineKeysChanged` against the recorded root, `clearOnline`).
 -/
 import Tough.Props.C03
+import Tough.Proofs.ClientLog
 namespace Tough.C14
 open Tough.Sig Tough.Client Tough.C03
 
@@ -24,93 +25,155 @@ theorem rotation_clears_online_state {shipped : Option Root} {st st' : St} {R' :
 
 /-! the root walk and the expiry gate do not look at the stored timestamp / snapshot -/
 
-theorem rootLoop_clear (v0 fuel : Nat) (r : Root) (st : St) :
-    rootLoop cfg srv v0 fuel r { st with ds := clearDs st.ds } =
-      ((rootLoop cfg srv v0 fuel r st).1,
-        { (rootLoop cfg srv v0 fuel r st).2 with ds := clearDs (rootLoop cfg srv v0 fuel r st).2.ds }) := by
-  induction fuel generalizing r st with
-  | zero => rfl
+theorem rootLoop_indep (v0 fuel : Nat) (r : Root) (a b : St) :
+    (rootLoop cfg srv v0 fuel r a).1 = (rootLoop cfg srv v0 fuel r b).1 ∧
+    (rootLoop cfg srv v0 fuel r a).2.ds = a.ds := by
+  induction fuel generalizing r a b with
+  | zero => exact ⟨rfl, rfl⟩
   | succ n ih =>
     simp only [rootLoop]
     split
-    · rfl
+    · exact ⟨rfl, rfl⟩
     · split
-      · rfl
-      · rfl
+      · exact ⟨rfl, rfl⟩
+      · exact ⟨rfl, rfl⟩
       · rename_i new _
-        exact ih new (st.req (.rootV (r.version + 1)) cfg.limits.maxRootSize)
+        exact ih new (a.req (.rootV (r.version + 1)) cfg.limits.maxRootSize) (b.req (.rootV (r.version + 1)) cfg.limits.maxRootSize)
 
-theorem systemTime_clear (st : St) :
-    systemTime cfg { st with ds := clearDs st.ds } =
-      ((systemTime cfg st).1, { (systemTime cfg st).2 with ds := clearDs (systemTime cfg st).2.ds }) := by
+theorem systemTime_clear (a b : St) (h : b.ds = clearDs a.ds) :
+    (systemTime cfg b).1 = (systemTime cfg a).1 ∧ (systemTime cfg b).2.ds = clearDs (systemTime cfg a).2.ds := by
+  have ht : b.ds.time = a.ds.time := by rw [h]; rfl
   unfold systemTime
-  simp only [clearDs]
+  rw [ht]
   split
-  · split <;> rfl
-  · rfl
+  · split
+    · exact ⟨rfl, h⟩
+    · exact ⟨rfl, by simp only [h, clearDs]⟩
+  · exact ⟨rfl, by simp only [h, clearDs]⟩
 
-theorem expiryGate_clear (r : RoleType) (e : Int) (st : St) :
-    expiryGate cfg r e { st with ds := clearDs st.ds } =
-      ((expiryGate cfg r e st).1, { (expiryGate cfg r e st).2 with ds := clearDs (expiryGate cfg r e st).2.ds }) := by
+theorem expiryGate_clear (r : RoleType) (e : Int) (a b : St) (h : b.ds = clearDs a.ds) :
+    (expiryGate cfg r e b).1 = (expiryGate cfg r e a).1 ∧ (expiryGate cfg r e b).2.ds = clearDs (expiryGate cfg r e a).2.ds := by
   unfold expiryGate
   split
   · unfold checkExpired
-    rw [systemTime_clear]
-    generalize systemTime cfg st = out
-    obtain ⟨res, s⟩ := out
-    cases res with
-    | error e' => rfl
-    | ok t => simp only; split <;> rfl
-  · rfl
+    have := systemTime_clear (cfg := cfg) a b h
+    generalize systemTime cfg a = oa at this
+    generalize systemTime cfg b = ob at this
+    obtain ⟨ra, sa⟩ := oa
+    obtain ⟨rb, sb⟩ := ob
+    simp only at this
+    obtain ⟨h1, h2⟩ := this
+    subst h1
+    cases rb with
+    | error e' => exact ⟨rfl, h2⟩
+    | ok t => simp only; split <;> exact ⟨rfl, h2⟩
+  · exact ⟨rfl, h⟩
+
+/-- the steps of a cycle after `load_root` -/
+def afterRoot (cfg : Config) (srv : Server) (root : Root) (st : St) : Except Err View × St :=
+  match loadTimestamp cfg srv root st with
+  | (.error e, st) => (.error e, st)
+  | (.ok ts, st) =>
+    match loadSnapshot cfg srv root ts st with
+    | (.error e, st) => (.error e, st)
+    | (.ok snap, st) =>
+      match loadTargets cfg srv root snap st with
+      | (.error e, st) => (.error e, st)
+      | (.ok tgt, st) => (.ok ⟨root, ts, snap, tgt⟩, st)
+
+theorem afterRoot_ext (root : Root) (st : St) (l : List Ev) :
+    afterRoot cfg srv root (st.ext l) = ((afterRoot cfg srv root st).1, (afterRoot cfg srv root st).2.ext l) := by
+  unfold afterRoot
+  rw [loadTimestamp_ext]
+  generalize loadTimestamp cfg srv root st = o1
+  obtain ⟨r1, s1⟩ := o1
+  cases r1 with
+  | error e => rfl
+  | ok ts =>
+    simp only
+    rw [loadSnapshot_ext]
+    generalize loadSnapshot cfg srv root ts s1 = o2
+    obtain ⟨r2, s2⟩ := o2
+    cases r2 with
+    | error e => rfl
+    | ok sn =>
+      simp only
+      rw [loadTargets_ext]
+      generalize loadTargets cfg srv root sn s2 = o3
+      obtain ⟨r3, s3⟩ := o3
+      cases r3 with
+      | error e => rfl
+      | ok t => rfl
+
+theorem cycle_eq_afterRoot (shipped : Option Root) (st : St) :
+    cycle cfg srv shipped st =
+      match loadRoot cfg srv shipped st with
+      | (.error e, st) => (.error e, st)
+      | (.ok root, st) => afterRoot cfg srv root st := by
+  unfold cycle afterRoot
+  rfl
 
 /-- **C14.b (recovery, full statement).** If the root at the end of step 1 replaced listed timestamp
-or snapshot keys, the whole cycle — result and resulting datastore — is the same as on a datastore
-without stored timestamp and snapshot: whatever versions they had (up to 2^63 or beyond) does not
-constrain what is accepted. Hence a correctly signed repository restarted at low versions, which a
-fresh client would accept, is accepted. -/
+or snapshot keys, the whole cycle — its result and the datastore it leaves — is the same as on a
+datastore without stored timestamp and snapshot: whatever versions they had (up to 2^63 or beyond)
+does not constrain what is accepted. Hence a correctly signed repository restarted at low versions,
+which a fresh client would accept, is accepted. -/
 theorem recovery_after_rotation (shipped : Option Root) (ds : Datastore) (R' : Root) (st1 : St) (r0 : Root)
     (h0 : shipped = some r0)
     (h : loadRoot cfg srv shipped ⟨ds, []⟩ = (.ok R', st1))
     (hk : onlineKeysChanged (refRoot ds r0) R' = true) :
-    cycle cfg srv shipped ⟨ds, []⟩ = cycle cfg srv shipped ⟨clearDs ds, []⟩ := by
-  have key : loadRoot cfg srv shipped ⟨clearDs ds, []⟩ = loadRoot cfg srv shipped ⟨ds, []⟩ := by
+    (cycle cfg srv shipped ⟨ds, []⟩).1 = (cycle cfg srv shipped ⟨clearDs ds, []⟩).1 ∧
+    (cycle cfg srv shipped ⟨ds, []⟩).2.ds = (cycle cfg srv shipped ⟨clearDs ds, []⟩).2.ds := by
+  have key : ∃ st2, loadRoot cfg srv shipped ⟨clearDs ds, []⟩ = (.ok R', st2) ∧ st2.ds = st1.ds := by
     subst h0
     unfold loadRoot at h ⊢
     simp only at h ⊢
-    split
-    · rename_i hv; simp [hv] at h
-    · have hl := rootLoop_clear (cfg := cfg) (srv := srv) r0.version (cfg.limits.maxRootUpdates + 1) r0 ⟨ds, []⟩
-      simp only at hl
+    by_cases hv : (!rootVerify r0 .root r0.msg r0.sigs) = true
+    · simp [hv] at h
+    · simp only [hv, Bool.false_eq_true, ↓reduceIte] at h ⊢
+      have hl := rootLoop_indep (cfg := cfg) (srv := srv) r0.version (cfg.limits.maxRootUpdates + 1) r0 ⟨ds, []⟩ ⟨clearDs ds, []⟩
+      have hl2 := (rootLoop_indep (cfg := cfg) (srv := srv) r0.version (cfg.limits.maxRootUpdates + 1) r0 ⟨clearDs ds, []⟩ ⟨ds, []⟩).2
       have hr : refRoot (clearDs ds) r0 = refRoot ds r0 := rfl
-      rw [hl, hr]
-      rename_i hv
-      simp only [hv, Bool.false_eq_true, ↓reduceIte] at h
-      generalize rootLoop cfg srv r0.version (cfg.limits.maxRootUpdates + 1) r0 ⟨ds, []⟩ = out at h ⊢
-      obtain ⟨res, s⟩ := out
-      cases res with
+      rw [hr]
+      generalize rootLoop cfg srv r0.version (cfg.limits.maxRootUpdates + 1) r0 ⟨ds, []⟩ = oa at h hl
+      generalize rootLoop cfg srv r0.version (cfg.limits.maxRootUpdates + 1) r0 ⟨clearDs ds, []⟩ = ob at hl hl2 ⊢
+      obtain ⟨ra, sa⟩ := oa
+      obtain ⟨rb, sb⟩ := ob
+      simp only at hl hl2
+      obtain ⟨e1, e2⟩ := hl
+      subst e1
+      cases ra with
       | error e => simp at h
       | ok root =>
         simp only at h ⊢
-        have hg := expiryGate_clear (cfg := cfg) .root root.expires s
-        rw [hg]
-        generalize expiryGate cfg .root root.expires s = out2 at h ⊢
-        obtain ⟨res2, s2⟩ := out2
-        cases res2 with
+        have hg := expiryGate_clear (cfg := cfg) .root root.expires sa sb (by rw [hl2, e2])
+        generalize expiryGate cfg .root root.expires sa = ga at h hg
+        generalize expiryGate cfg .root root.expires sb = gb at hg ⊢
+        obtain ⟨rga, ta⟩ := ga
+        obtain ⟨rgb, tb⟩ := gb
+        simp only at hg
+        obtain ⟨g1, g2⟩ := hg
+        subst g1
+        cases rgb with
         | error e => simp at h
         | ok u =>
           simp only at h ⊢
           split at h
           · rename_i hc
             simp only [Prod.mk.injEq, Except.ok.injEq] at h
-            obtain ⟨rfl, _⟩ := h
+            obtain ⟨rfl, h2⟩ := h
             simp only [hc, ↓reduceIte]
-            rfl
+            refine ⟨_, rfl, ?_⟩
+            rw [← h2]
+            simp only [recordRoot, clearOnline, g2, clearDs]
           · rename_i hc
             simp only [Prod.mk.injEq, Except.ok.injEq] at h
             obtain ⟨rfl, _⟩ := h
             exact absurd hk hc
-  unfold cycle
-  rw [key]
+  obtain ⟨st2, hk2, hds⟩ := key
+  rw [cycle_eq_afterRoot, cycle_eq_afterRoot, h, hk2]
+  simp only
+  exact same_ds_of_ext (afterRoot cfg srv R') (afterRoot_ext R') st1 st2 hds.symm
 
 /-- **C14.c** Stored state of roles whose keys did not change keeps protecting: the top-level targets
 are exempted only by a change of what is authorized for the targets role (C03.c); and as long as the
